@@ -81,59 +81,66 @@ func RunJob(t *testing.T, job Job) *Partial {
 			break
 		}
 		prof := job.Profiles[i%len(job.Profiles)]
-		spec := RunSpec{Seed: runSeed(job.Seed, job.Property, i), Profile: prof}
-		res := engineRun(job.Engine)(t, spec)
-		p.Runs++
-		if res.Harness != "" {
-			p.Harness = append(p.Harness, fmt.Sprintf("run %d seed %d profile %s: %s", i, spec.Seed, prof, res.Harness))
-			if len(p.Harness) > 5 {
-				break
-			}
-			continue
+		specs := []RunSpec{{Seed: runSeed(job.Seed, job.Property, i), Profile: prof}}
+		if job.Engine == "upgsim" {
+			// fault enumeration: one job index = one population, all its plans
+			specs = UpgradePlans(t, specs[0].Seed)
+			p.Counters["upgrade.populations"]++
 		}
-		if dump != nil {
-			fmt.Fprintf(dump, "=== run %d seed %d hash %x\n", i, spec.Seed, res.TraceHash)
-			for _, l := range res.Trace {
-				fmt.Fprintln(dump, l)
-			}
-		}
-		for k, v := range res.Counters {
-			p.Counters[k] += v
-		}
-		p.SimTimeMs += res.SimTime.Milliseconds()
-		if res.Nontrivial {
-			if _, ok := hashes[res.TraceHash]; !ok {
-				hashes[res.TraceHash] = struct{}{}
-				p.Nontrivial++
-			}
-		}
-		for _, h := range res.States {
-			states[h] = struct{}{}
-		}
-		for _, h := range res.Pairs {
-			pairs[h] = struct{}{}
-		}
-		for _, v := range res.Violations {
-			if av, ok := attributeTo(job.Property, v, res); ok {
-				v = av
-				sig := v.Sig()
-				seenSig[sig]++
-				if seenSig[sig] <= 3 {
-					p.Failures = append(p.Failures, Failure{Index: i, Spec: spec, Config: res.Config, Steps: res.Steps, Violation: v, TraceHash: res.TraceHash})
+		for _, spec := range specs {
+			res := engineRun(job.Engine)(t, spec)
+			p.Runs++
+			if res.Harness != "" {
+				p.Harness = append(p.Harness, fmt.Sprintf("run %d seed %d profile %s: %s", i, spec.Seed, prof, res.Harness))
+				if len(p.Harness) > 5 {
+					break
 				}
-				p.Counters["violations."+sig]++
-			} else {
-				p.OtherViol[v.Sig()]++
+				continue
 			}
-		}
-		for _, n := range res.Notes {
-			if len(p.Notes) < 20 {
-				p.Notes = append(p.Notes, n)
+			if dump != nil {
+				fmt.Fprintf(dump, "=== run %d seed %d hash %x\n", i, spec.Seed, res.TraceHash)
+				for _, l := range res.Trace {
+					fmt.Fprintln(dump, l)
+				}
 			}
-		}
-		if len(p.Samples) < 2 && res.Nontrivial {
-			b, _ := json.Marshal(map[string]any{"seed": spec.Seed, "profile": prof, "config": res.Config, "steps": sampleSteps(res.Steps), "n_steps": len(res.Steps), "final": res.Final, "trace_tail": tail(res.Trace, 12)})
-			p.Samples = append(p.Samples, b)
+			for k, v := range res.Counters {
+				p.Counters[k] += v
+			}
+			p.SimTimeMs += res.SimTime.Milliseconds()
+			if res.Nontrivial {
+				if _, ok := hashes[res.TraceHash]; !ok {
+					hashes[res.TraceHash] = struct{}{}
+					p.Nontrivial++
+				}
+			}
+			for _, h := range res.States {
+				states[h] = struct{}{}
+			}
+			for _, h := range res.Pairs {
+				pairs[h] = struct{}{}
+			}
+			for _, v := range res.Violations {
+				if av, ok := attributeTo(job.Property, v, res); ok {
+					v = av
+					sig := v.Sig()
+					seenSig[sig]++
+					if seenSig[sig] <= 3 {
+						p.Failures = append(p.Failures, Failure{Index: i, Spec: spec, Config: res.Config, Steps: res.Steps, Violation: v, TraceHash: res.TraceHash})
+					}
+					p.Counters["violations."+sig]++
+				} else {
+					p.OtherViol[v.Sig()]++
+				}
+			}
+			for _, n := range res.Notes {
+				if len(p.Notes) < 20 {
+					p.Notes = append(p.Notes, n)
+				}
+			}
+			if len(p.Samples) < 2 && res.Nontrivial && (job.Engine != "upgsim" || len(res.Steps) > 0) {
+				b, _ := json.Marshal(map[string]any{"seed": spec.Seed, "profile": prof, "config": res.Config, "steps": sampleSteps(res.Steps), "n_steps": len(res.Steps), "final": res.Final, "trace_tail": tail(res.Trace, 12)})
+				p.Samples = append(p.Samples, b)
+			}
 		}
 	}
 	for h := range hashes {
